@@ -500,6 +500,30 @@ fn mode_alloc(out: &mut Out, listfile: &str) -> io::Result<()> {
                 write!(out, "1 9\n# panic: {}\n", msg)?;
             }
         }
+        // The same input through the path-based entry point, measured the same way:
+        // 41 code input_len peak_live largest_request
+        let path2 = path.clone();
+        let measured2 = on_shared_worker(move || {
+            alloc_reset();
+            ENABLED.store(true, Ordering::SeqCst);
+            let r = std::panic::catch_unwind(|| AsepriteFile::read_file(std::path::Path::new(&path2)));
+            let stats = alloc_stats();
+            let code = match &r {
+                Ok(Ok(_)) => 0,
+                Ok(Err(e)) => error_code(e),
+                Err(_) => 9,
+            };
+            drop(r);
+            ENABLED.store(false, Ordering::SeqCst);
+            (code, stats)
+        });
+        match measured2 {
+            Ok((code, st)) => writeln!(out, "41 {} {} {} {}", code, input_len, st.peak_live, st.largest_request)?,
+            Err(msg) => {
+                ENABLED.store(false, Ordering::SeqCst);
+                write!(out, "41 9 {} 0 0\n# panic in read_file: {}\n", input_len, msg)?;
+            }
+        }
         end(out, i)?;
     }
     Ok(())
